@@ -5,10 +5,14 @@ checks) against it in /repo (apply, run, revert) and stores it under /verif/seed
 import json, os, shutil, subprocess, sys
 src, wt, name, prop, needs = sys.argv[1:6]
 extra = sys.argv[6:]
-r = subprocess.run(["/verif/tools/confirm_seeded.sh", src, wt], capture_output=True, text=True)
-confirm = r.stdout.strip().splitlines()[-1] if r.stdout.strip() else r.stderr.strip()
-if r.returncode != 0:
-    print("NOT CONFIRMED:", confirm); sys.exit(1)
+if os.environ.get("CONFIRM_LINE"):
+    # confirmation already done (tools/confirm_seeded.sh in a scratch worktree); its last line
+    confirm = os.environ["CONFIRM_LINE"]
+else:
+    r = subprocess.run(["/verif/tools/confirm_seeded.sh", src, wt], capture_output=True, text=True)
+    confirm = r.stdout.strip().splitlines()[-1] if r.stdout.strip() else r.stderr.strip()
+    if r.returncode != 0:
+        print("NOT CONFIRMED:", confirm); sys.exit(1)
 checks = [prop] + extra
 r2 = subprocess.run(["/verif/tools/try_seeded.sh", os.path.join(src, "patch.diff")] + checks, capture_output=True, text=True)
 lines = r2.stdout.strip().splitlines()
